@@ -20,7 +20,10 @@ impl C09 {
     }
 }
 
-const POSITIONS: &[&str] = &["text", "trtext", "item", "stringlist", "tabtitle", "icontheme", "windowtitle", "classname"];
+// every kind of sink a constant string can reach in the form: plain / translatable text, item and string-list entries,
+// attached properties, attribute values (icon theme), file names (pixmap, icon state), key sequences, the class name
+const POSITIONS: &[&str] =
+    &["text", "trtext", "item", "stringlist", "tabtitle", "icontheme", "windowtitle", "classname", "pixmap", "iconfile", "shortcut"];
 
 fn gen_string(rng: &mut Rng) -> String {
     let alphabet: Vec<char> = vec![
@@ -66,6 +69,9 @@ fn document(pos: &str, s: &str, style: u32) -> (String, String) {
         "tabtitle" => format!("QTabWidget {{ QWidget {{ QTabWidget.title: {lit} }} }}"),
         "icontheme" => format!("QPushButton {{ icon.name: {lit} }}"),
         "windowtitle" => format!("QWidget {{ windowTitle: {lit}; toolTip: \"t\" }}"),
+        "pixmap" => format!("QLabel {{ pixmap: {lit} }}"),
+        "iconfile" => format!("QToolButton {{ icon.normalOff: {lit}; icon.selectedOn: \"on.png\" }}"),
+        "shortcut" => format!("QPushButton {{ shortcut: {lit} }}"),
         "classname" => return (format!("import qmluic.QtWidgets\nQWidget {{ }}\n"), s.to_owned()),
         _ => unreachable!(),
     };
@@ -103,6 +109,12 @@ fn raw_at(pos: &str, ui: &str) -> Option<String> {
         }
         "icontheme" => between("theme=\"", "\"", 0).map(|x| x.1),
         "classname" => between("<class>", "</class>", 0).map(|x| x.1),
+        "pixmap" => between("<pixmap>", "</pixmap>", 0).map(|x| x.1),
+        "iconfile" => between("<normaloff>", "</normaloff>", 0).map(|x| x.1),
+        "shortcut" => {
+            let p = ui.find("name=\"shortcut\"")?;
+            between("<string notr=\"true\">", "</string>", p).map(|x| x.1)
+        }
         _ => None,
     }
 }
@@ -118,6 +130,9 @@ fn parsed_at(pos: &str, root: &xml::Element) -> Option<String> {
         "stringlist" => all.iter().find(|e| e.name == "stringlist")?.children_named("string").next().map(|e| e.text()),
         "icontheme" => all.iter().find(|e| e.name == "iconset")?.attr("theme").map(|s| s.to_owned()),
         "classname" => root.child("class").map(|e| e.text()),
+        "pixmap" => prop("pixmap")?.child("pixmap").map(|e| e.text()),
+        "iconfile" => all.iter().find(|e| e.name == "normaloff").map(|e| e.text()),
+        "shortcut" => prop("shortcut")?.child("string").map(|e| e.text()),
         _ => None,
     }
 }
@@ -182,6 +197,22 @@ impl Stream for C09 {
                 let (src, _) = document(pos, &s, rng.below(6) as u32);
                 let ty = format!("Doc{i}");
                 std::fs::write(dir.path().join(format!("{ty}.qml")), &src).unwrap();
+                // an output of an earlier, different revision of the source may already be there (longer, shorter, not XML at
+                // all): what the run leaves must be the form of THIS revision, nothing of the old file
+                // (only for sources that are accepted: what happens to the old output of a rejected source is C15's subject)
+                let accepted = env::translate(&self.tm, &src, &ty, Mode::Reject).accepted();
+                match rng.below(4) {
+                    _ if !accepted => {}
+                    0 => {
+                        let (old, _) = document("text", &"an older and much longer revision of this document ".repeat(1 + rng.below(6)), 0);
+                        let t = env::translate(&self.tm, &old, &ty, Mode::Reject);
+                        if let Some(ui) = t.ui {
+                            std::fs::write(dir.path().join(format!("{}.ui", ty.to_lowercase())), ui).unwrap();
+                        }
+                    }
+                    1 => std::fs::write(dir.path().join(format!("{}.ui", ty.to_lowercase())), "stale\n".repeat(1 + rng.below(200))).unwrap(),
+                    _ => {}
+                }
                 docs.push((ty, src));
             }
             let bin = env::cli_binary();
